@@ -112,6 +112,24 @@ pub mod q {
         std::mem::forget(d2);
         kani::cover!(true, "reached end");
     });
+    kproof!(unit_ret_becomes_value, 14, {
+        let d = def(vec![method("f", Schema::ZeroSize, vec![p(SchemaPrimitive::schema_u8)], ReceiverType::Shared, false)]);
+        let d2 = def(vec![method("f", p(SchemaPrimitive::schema_u32), vec![p(SchemaPrimitive::schema_u8)], ReceiverType::Shared, false)]);
+        let r = ledger(&d, &d2);
+        expect!(r, err, "C15: a unit return type turning into a value is not reported");
+        std::mem::forget(d);
+        std::mem::forget(d2);
+        kani::cover!(true, "reached end");
+    });
+    kproof!(value_ret_becomes_unit, 14, {
+        let d = def(vec![method("f", p(SchemaPrimitive::schema_u32), vec![], ReceiverType::Shared, false)]);
+        let d2 = def(vec![method("f", Schema::ZeroSize, vec![], ReceiverType::Shared, false)]);
+        let r = ledger(&d, &d2);
+        expect!(r, err, "C15: a value return type turning into unit is not reported");
+        std::mem::forget(d);
+        std::mem::forget(d2);
+        kani::cover!(true, "reached end");
+    });
     kproof!(ret_type_changed, 14, {
         let d = def(vec![method("f", p(SchemaPrimitive::schema_u32), vec![p(SchemaPrimitive::schema_u8)], ReceiverType::Shared, false)]);
         let d2 = def(vec![method("f", p(SchemaPrimitive::schema_u64), vec![p(SchemaPrimitive::schema_u8)], ReceiverType::Shared, false)]);
